@@ -590,6 +590,20 @@ def run(prog, rep, tier):
     if n310 < 40:
         raise CheckerError("R3.10: only %d lifted C14 instances" % n310)
 
+    # ------------------------------------------------------------ R3.12 bounds and message times are converted without losing the instant
+    # The window compares instants.  Every reader converts the bounds (a DateTime with the user's
+    # offset) into its own time type, or its records' times into DateTimes: evtx to Utc timestamps,
+    # journal to microseconds, accounting records to (sec, usec) pairs.  A conversion that reads the
+    # wall clock of a zoned value back as UTC (naive_local -> from_utc) shifts the window by the
+    # bound's offset for that kind of source only.  Shared chrono discipline lint (instant.py) over the
+    # whole library.
+    import instant as _inst3
+    R312 = rep.rule("R3.12", "conversions between window bounds, record times and DateTimes preserve the instant (all readers)")
+    n312 = _inst3.check(prog, rep, R312, lambda p_: (p_.startswith("s4lib::readers::") or p_.startswith("s4lib::data::")) and "_tests" not in p_,
+                        "the -a/-b window is then shifted by the bound's own UTC offset for this kind of source")
+    if n312 < 10:
+        raise CheckerError("R3.12: only %d chrono conversion sites found in the library" % n312)
+
     # ------------------------------------------------------------ R3.8 the search functions classify through the window predicates only
     # The three searches for the first message at or after --dt-after (dispatcher, binary search for
     # plain files, linear search for streamed/compressed files) must agree on what "at or after" means.
